@@ -105,8 +105,10 @@ func ReadStream(r stream.Reader, t byte) (*V, error) {
 		x, err := r.ReadDouble()
 		return &V{T: TDouble, U: math.Float64bits(x)}, err
 	case TBinary:
+		// keep the returned slice as generated code does (no defensive copy): a reader that
+		// hands out aliased storage is then visible when the value is dumped at the end
 		x, err := r.ReadBinary()
-		return &V{T: TBinary, Bin: append([]byte{}, x...)}, err
+		return &V{T: TBinary, Bin: x}, err
 	case TStruct:
 		if err := r.ReadStructBegin(); err != nil {
 			return nil, err
